@@ -1776,6 +1776,21 @@ def _put(a, ind, v, mode='raise'):
     np.put(base, ind, v, mode=mode)
 
 
+@implements(np.isclose)
+def _isclose(a, b, rtol=1e-05, atol=1e-08, equal_nan=False):
+    def one(x, y):
+        return abs(x - y) <= atol + rtol * abs(y)
+    return unwrap0(normalize(_elementwise(one, a, b).view(SymArr)))
+
+
+@implements(np.allclose)
+def _allclose(a, b, rtol=1e-05, atol=1e-08, equal_nan=False):
+    r = _isclose(a, b, rtol, atol, equal_nan)
+    if isinstance(r, np.ndarray):
+        return bool(_tb(_reduce(_obj(r), _REDUCE[np.logical_and][0], True, None, False)))
+    return bool(_tb(r))
+
+
 @implements(np.isnan)
 def _isnan(a):
     return unwrap0(normalize(_elementwise(_el_isnan, a).view(SymArr)))
